@@ -719,7 +719,19 @@ def shape_stop(tree):
         raise Unsupported("Handler.stop: sink.stop() is not the last statement")
     if "self._stopped = True" not in wb:
         raise Unsupported("Handler.stop: _stopped is not set")
-    return wb.index("self._stopped = True") == 0, protected
+    # an enqueue handler: sentinel into the pipe, then the worker is joined – both before the sink is stopped
+    enq = [x for x in body[0].body if isinstance(x, ast.If) and ast.unparse(x.test) == "self._enqueue" and not x.orelse]
+    if len(enq) != 1:
+        raise Unsupported("Handler.stop: `if self._enqueue:` block not found")
+    calls = [ast.unparse(c) for x in enq[0].body for c in calls_in(x)]
+    if "self._queue.put(None)" not in calls or "self._thread.join()" not in calls:
+        raise Unsupported("Handler.stop: sentinel / join not found in the enqueue block: %r" % (calls,))
+    drains = calls.index("self._queue.put(None)") < calls.index("self._thread.join()") \
+        and body[0].body.index(enq[0]) < len(body[0].body) - 1
+    for x in enq[0].body:
+        if isinstance(x, (ast.Try, ast.With, ast.For, ast.While)):
+            raise Unsupported("Handler.stop: control flow in the enqueue block")
+    return wb.index("self._stopped = True") == 0, protected, drains
 
 
 def shape_tasks(tree):
@@ -854,7 +866,8 @@ def generate():
         body += lean_pred("workerCaught", wcaught, "error kinds covered by the two `except` clauses of `_queued_writer`")
         body += "/-- what the `get` arm of `_queued_writer` does after reporting -/\ndef workerGetArm : Arm := .%s\n" % ag
         body += "/-- what the `write` arm of `_queued_writer` does after reporting -/\ndef workerWriteArm : Arm := .%s\n" % aw
-        first, prot = shape_stop(h)
+        first, prot, drains = shape_stop(h)
+        body += lean_bool("stopDrainsBeforeSinkStop", drains, "`Handler.stop` of an enqueue handler: sentinel into the pipe, worker joined, and only then `sink.stop()`")
         body += lean_bool("stopMarksStoppedFirst", first, "`Handler.stop`: `_stopped = True` is the first statement under the lock")
         body += lean_bool("stopUsesProtectedLock", prot, "`Handler.stop`: takes the lock through `_protected_lock()` (re-entrancy detected), not the bare `self._lock`")
         body += lean_bool("tasksUseProtectedLock", shape_tasks(h), "`Handler.tasks_to_complete`: a non-enqueue handler uses `_protected_lock()`")
